@@ -139,6 +139,119 @@ Proof.
     + rewrite Hfind. reflexivity.
 Qed.
 
+(* ---------- an element keyed by its DEFINITION-REF (parameter and reference values of ECUC containers, ...) ---------- *)
+Lemma h_first_named_unique name l x :
+  In (inl x) l -> h_name x = name -> (forall y, In (inl y) l -> h_name y = name -> y = x) -> h_first_named name l = Some x.
+Proof.
+  induction l as [|[h|d] r IH]; cbn [In h_first_named]; [intros []| |].
+  - intros Hin Hx Hu. destruct (h_name h =? name) eqn:E.
+    + apply N.eqb_eq in E. f_equal. apply Hu; [left; reflexivity|exact E].
+    + destruct Hin as [[= ->]|Hin]; [apply N.eqb_neq in E; contradiction|].
+      apply IH; [exact Hin|exact Hx|]. intros y Hy. apply Hu. right. exact Hy.
+  - intros [[=]|Hin] Hx Hu. apply IH; [exact Hin|exact Hx|]. intros y Hy. apply Hu. right. exact Hy.
+Qed.
+
+Lemma RepItems_present (R : list N -> mtree -> htree -> Prop) F S l hl c :
+  RepItems R F S l hl -> In c (kids l) -> present F c = true -> exists h, In (inl h) hl /\ R S c h.
+Proof.
+  revert hl. induction l as [|[c0|d] r IH]; intros hl; cbn [RepItems kids flat_map app In].
+  - intros _ [].
+  - destruct (present F c0) eqn:Ep.
+    + intros (h0 & hr & -> & H1 & H2) [<-|Hc] Hp; [exists h0; split; [left; reflexivity|exact H1]|].
+      destruct (IH hr H2 Hc Hp) as (h & Hin & Hr). exists h. split; [right; exact Hin|exact Hr].
+    + intros H [<-|Hc] Hp; [congruence|]. apply (IH hl H Hc Hp).
+  - intros (hr & -> & H) Hc Hp. destruct (IH hr H Hc Hp) as (h & Hin & Hr). exists h. split; [right; exact Hin|exact Hr].
+Qed.
+
+Lemma RepItems_in_inv (R : list N -> mtree -> htree -> Prop) F S l hl h :
+  RepItems R F S l hl -> In (inl h) hl -> exists c, In c (kids l) /\ R S c h.
+Proof.
+  revert hl. induction l as [|[c0|d] r IH]; intros hl; cbn [RepItems kids flat_map app].
+  - intros -> [].
+  - destruct (present F c0).
+    + intros (h0 & hr & -> & H1 & H2) [[= <-]|Hin]; [exists c0; split; [left; reflexivity|exact H1]|].
+      destruct (IH hr H2 Hin) as (c & Hc & Hr). exists c. split; [right; exact Hc|exact Hr].
+    + intros H Hin. destruct (IH hl H Hin) as (c & Hc & Hr). exists c. split; [right; exact Hc|exact Hr].
+  - intros (hr & -> & H) [[=]|Hin]. destruct (IH hr H Hin) as (c & Hc & Hr). exists c. split; [exact Hc|exact Hr].
+Qed.
+
+Lemma pview_items_in_inv g l h : In (inl h) (pview_items g l) -> exists c, In c (kids l) /\ set_mem g (mfiles c) = true /\ h = pview g c.
+Proof.
+  induction l as [|[c|d] r IH]; cbn [pview_items kids flat_map app]; [intros []| |].
+  - destruct (set_mem g (mfiles c)) eqn:E.
+    + intros [[= <-]|Hin]; [exists c; split; [left; reflexivity|auto]|].
+      destruct (IH Hin) as (c0 & H0 & E0). exists c0. split; [right; exact H0|exact E0].
+    + intros Hin. destruct (IH Hin) as (c0 & H0 & E0). exists c0. split; [right; exact H0|exact E0].
+  - intros [[=]|Hin]. destruct (IH Hin) as (c0 & H0 & E0). exists c0. split; [exact H0|exact E0].
+Qed.
+Lemma pview_items_present g l c : In c (kids l) -> set_mem g (mfiles c) = true -> In (inl (pview g c)) (pview_items g l).
+Proof.
+  induction l as [|[c0|d] r IH]; cbn [pview_items kids flat_map app In]; [intros []| |].
+  - intros [<-|Hc] Hg; [rewrite Hg; left; reflexivity|]. destruct (set_mem g (mfiles c0)); [right|]; auto.
+  - intros Hc Hg. right. auto.
+Qed.
+
+(* a leaf with one text item has one view *)
+Lemma Rep_text_leaf name ty attrs dr comment files F inh h :
+  Rep T F inh (MNode name ty attrs [inr (Parser.DString dr)] comment files) h ->
+  h = HNode name ty (hattrs attrs) [inr (DString dr)] comment (norm inh (inF F files)).
+Proof.
+  intros HR. apply Rep_unfold in HR as (_ & sc & sc' & -> & HIs & HPs & _).
+  cbn [RepItems] in HIs. destruct HIs as (hr0 & -> & ->).
+  apply Permutation_sym, Permutation_length_1_inv in HPs. subst sc. reflexivity.
+Qed.
+
+(* an element whose type is not named and that has exactly one DEFINITION-REF sub-element (anywhere in its content,
+   in the files of the element): its merge key is (element name, DEFINITION-REF text) in every view *)
+Lemma keystable_defref pty name ty attrs content comment files idx sub tyd dr dattrs dcomment :
+  is_named T ty = Val false ->
+  content_mode T tyd = Val MCharacters ->
+  find_sub_element T pty name 4294967295 = Val (Some (sub, idx)) ->
+  files <> [] ->
+  let d := MNode defref tyd dattrs [inr (Parser.DString dr)] dcomment files in
+  In d (kids content) -> (forall c, In c (kids content) -> m_name c = defref -> c = d) ->
+  KeyStable T defref pty (MNode name ty attrs content comment files) (mkCore name false None (Some dr) idx).
+Proof.
+  intros Hnamed Hmode Hfind Hne d Hd Hu. split.
+  - intros F inh h HR i.
+    apply Rep_unfold in HR as (HS & hc & hc' & -> & HI & HP & _).
+    set (S := inF F files) in *.
+    assert (Hp : present F d = true).
+    { unfold present, d. cbn [mfiles m_fileset]. apply negb_true_iff, is_empty_false. exact HS. }
+    destruct (RepItems_present _ F S content hc' d HI Hd Hp) as (hd & Hhd & HRd).
+    pose proof (Rep_text_leaf _ _ _ _ _ _ F (Some S) hd HRd) as Ehd.
+    assert (Hfirst : h_first_named defref hc = Some hd).
+    { apply h_first_named_unique.
+      - eapply Permutation_in; [apply Permutation_sym; exact HP|exact Hhd].
+      - rewrite Ehd. reflexivity.
+      - intros y Hy Hny. assert (Hy' : In (inl y) hc') by (eapply Permutation_in; eauto).
+        destruct (RepItems_in_inv _ F S content hc' y HI Hy') as (c & Hc & HRc).
+        destruct (Rep_shape T F (Some S) c y HRc) as (En & _).
+        assert (c = d) by (apply Hu; [exact Hc|congruence]). subst c.
+        rewrite (Rep_text_leaf _ _ _ _ _ _ F (Some S) y HRc). exact (eq_sym Ehd). }
+    unfold hkey, inj, pk_of. cbn [h_name h_ty pk_id pk_name pk_ident pk_item pk_defref pk_idx c_name c_ident c_item c_defref c_idx].
+    f_equal.
+    + unfold h_is_identifiable. cbn [h_ty]. rewrite Hnamed. reflexivity.
+    + unfold h_item_name. cbn [h_ty]. rewrite Hnamed. reflexivity.
+    + unfold h_defref. cbn [h_content]. rewrite Hfirst, Ehd. unfold h_character_data. cbn [h_content h_ty]. rewrite Hmode. reflexivity.
+    + rewrite Hfind. reflexivity.
+  - intros g Hg i. rewrite pview_unfold. cbn [mfiles m_fileset] in Hg.
+    assert (Hgd : set_mem g (mfiles d) = true) by (apply set_mem_in; exact Hg).
+    assert (Evd : pview g d = HNode defref tyd (hattrs dattrs) [inr (DString dr)] dcomment []) by (unfold d; rewrite pview_unfold; reflexivity).
+    assert (Hfirst : h_first_named defref (pview_items g content) = Some (pview g d)).
+    { apply h_first_named_unique.
+      - apply pview_items_present; assumption.
+      - rewrite Evd. reflexivity.
+      - intros y Hy Hny. destruct (pview_items_in_inv g content y Hy) as (c & Hc & _ & ->).
+        rewrite pview_name in Hny. rewrite (Hu c Hc Hny). reflexivity. }
+    unfold hkey, inj, pk_of. cbn [h_name h_ty pk_id pk_name pk_ident pk_item pk_defref pk_idx c_name c_ident c_item c_defref c_idx].
+    f_equal.
+    + unfold h_is_identifiable. cbn [h_ty]. rewrite Hnamed. reflexivity.
+    + unfold h_item_name. cbn [h_ty]. rewrite Hnamed. reflexivity.
+    + unfold h_defref. cbn [h_content]. rewrite Hfirst, Evd. unfold h_character_data. cbn [h_content h_ty]. rewrite Hmode. reflexivity.
+    + rewrite Hfind. reflexivity.
+Qed.
+
 End Keys.
 
 (* ====================================================================== the tiny master is in the class *)
